@@ -525,9 +525,11 @@ func genTree(r *Rng, o treeOpts) *GenTree {
 			// extra field specs through `configurations:` (custom transformer config merged into the defaults)
 			cfg := obj{}
 			fs := func() obj {
-				e := obj{"path": r.Pick([]string{"spec/extra/labels", "spec/free", "metadata/labels", "spec/nested/deep"}), "create": r.Bool()}
+				// paths and kinds on both sides of the default rows in the sorted tables (a spec that sorts before the
+				// default wildcard rows exposes slices shared between kustomizations, seeded C02-f)
+				e := obj{"path": r.Pick([]string{"spec/extra/labels", "spec/free", "metadata/labels", "spec/nested/deep", "metadata/aaa", "spec/aaa/labels"}), "create": r.Bool()}
 				if r.Bool() {
-					e["kind"] = r.Pick([]string{"MyKind", "Widget"})
+					e["kind"] = r.Pick([]string{"MyKind", "Widget", "Deployment", "ConfigMap", "Service"})
 				}
 				return e
 			}
